@@ -84,9 +84,11 @@ def app_specs(draw):
             if style == "wrapped" and len(m["ret"]) == 1 and draw(st.integers(0, 3)) == 0:
                 m["_out_variable_name"] = "out_%s" % name
             if cn and draw(st.integers(0, 3)) == 0:
-                m["in_header"] = [draw(st.sampled_from(cn))]
+                # one header class, or several (spyne then synthesizes a multi-part
+                # '<name>InHeaderMsg' / '<name>OutHeaderMsg' message)
+                m["in_header"] = draw(st.lists(st.sampled_from(cn), min_size=1, max_size=2, unique=True))
             if cn and draw(st.integers(0, 3)) == 0:
-                m["out_header"] = [draw(st.sampled_from(cn))]
+                m["out_header"] = draw(st.lists(st.sampled_from(cn), min_size=1, max_size=2, unique=True))
             if faults and draw(st.integers(0, 2)) == 0:
                 m["throws"] = sorted(set(draw(st.lists(st.sampled_from([f["name"] for f in faults]),
                                                        min_size=1, max_size=2))))
